@@ -122,10 +122,22 @@ MUTANTS = {
     "c15-offset": ("pulsarbat/pulsar/phase.py", "                frac_str = func(frac + 0.25)\n                f24 = int(frac_str[2:4])", "                frac_str = func(frac + 0.25)\n                f24 = int(frac_str[2:4]) + (1 if frac_str[4:5] == '9' else 0)", ["C15"]),
     "c15-argmin-cycle": ("pulsarbat/pulsar/phase.py", '        approx = np.min(self.cycle, axis, keepdims=True)\n        dt = (self["int"] - approx) + self["frac"]\n        return dt.argmin(axis, out)', '        return self.cycle.argmin(axis, out)', ["C15"]),
     "c15-rpartition": ("pulsarbat/pulsar/phase.py", '    s_count, sep, s_frac = s_float.partition(".")', '    s_count, sep, s_frac = s_float.rpartition(".")', ["C15"]),
+    "c08-phasepol-domain": ("pulsarbat/pulsar/predictor.py", '        polynomial = self["poly"][index](Polynomial([dt, 1]))\n        a = int(polynomial(0) // 1)\n\n        return polynomial - a, pb.Phase(rphase + a)', '        polynomial = self["poly"][index].copy()\n        polynomial.domain -= dt\n        a = int(polynomial(0) // 1)\n\n        return (polynomial - a).convert(), pb.Phase(rphase + a)', ["C08"]),
+    "c08-domain": ("pulsarbat/pulsar/predictor.py", "poly=Polynomial(coeffs, domain=[-60, +60]).convert(),", "poly=Polynomial(coeffs, domain=[-30, +30]).convert(),", ["C08"]),
+    "c08-f0-minutes": ("pulsarbat/pulsar/predictor.py", "coeffs[1] += float(f0) * 60", "coeffs[1] += float(f0)", ["C08"]),
+    "c08-frac-dropped": ("pulsarbat/pulsar/predictor.py", '                coeffs[0] += float("0." + r_frac)\n', "", ["C08"]),
+    "c08-searchsorted-tmid": ("pulsarbat/pulsar/predictor.py", "index = np.searchsorted(span_ends.mjd, times.mjd)", 'index = np.searchsorted(self["tmid"].mjd, times.mjd)', ["C08"]),
+    "c08-deriv-n": ("pulsarbat/pulsar/predictor.py", '            f = self["poly"][index].deriv(n + 1)(dt)\n        else:', '            f = self["poly"][index].deriv(n)(dt) if n else self["poly"][index].deriv(1)(dt)\n        else:', ["C08"]),
+    "c08-merge-tol": ("pulsarbat/pulsar/predictor.py", "start.isclose(next_end, 1 * u.ms)", "start.isclose(next_end, 1 * u.min)", ["C08"]),
+    "c08-ncoeff-floor": ("pulsarbat/pulsar/predictor.py", "for _ in range(-(int(ncoeff) // -3)):", "for _ in range(int(ncoeff) // 3):", ["C08"]),
+    "c08-d2e": ("pulsarbat/pulsar/predictor.py", 'd2e = str.maketrans("Dd", "ee")', 'd2e = str.maketrans("D", "e")', ["C08"]),
+    "c08-phasepol-floor": ("pulsarbat/pulsar/predictor.py", "a = int(polynomial(0) // 1)", "a = int(polynomial(0))", ["C08"]),
+    "c08-range-any": ("pulsarbat/pulsar/predictor.py", "        if not np.all(check):\n            raise ValueError(\"Some timestamps", "        if not np.any(check):\n            raise ValueError(\"Some timestamps", ["C08"]),
 }
 
 # behaviour-preserving edits: no check may fire
 NEUTRAL = {
+    "n-c08-merge-min": ("pulsarbat/pulsar/predictor.py", "                    start = min(start, next_start)\n", "                    start = next_start\n", ["C08"]),
     "n-c19-mix-sign": ("pulsarbat/utils.py", "z *= np.exp(-1j * np.pi / 2 * np.arange(N))[tuple(ind)]", "z *= np.exp(+1j * np.pi / 2 * np.arange(N))[tuple(ind)]", ["C19"]),
     "n-c19-slice-plus1": ("pulsarbat/utils.py", "    h[1 : N // 2] = 2", "    h[1 : N // 2 + 1] = 2", ["C19"]),
     "n-stft-scale-fresh": ("pulsarbat/contrib/misc.py", "    x = x.reshape(out_shape)\n    x /= nperseg\n", "    x = x.reshape(out_shape)\n    x = x / nperseg\n", ["C14", "C20"]),
